@@ -362,11 +362,9 @@ class NodeDictionary(NodeParameter):
         return self._as_control_input()
 
     def _embed_as_osc_arg(self, lst):
-        lst.append('[')
         for item in self._param_value.items():
             for e in item:
                 node_param(e)._embed_as_osc_arg(lst)
-        lst.append(']')
 
 
 ### Module functions ###
